@@ -108,10 +108,29 @@ def busCase (j : Json) (bus : List Json) : Option String := do
   let tr := busTrace (busInit ts) ops
   pure (" | ".intercalate (inits ++ tr.map fun (i, o, ws, t) => s!"t{i}:" ++ showLine (showOutcome o) ws t))
 
+/-- an event of mappings started concurrently: `["b", write, logical]`, `["a", id, ok]`, `["x", id, "n" | "e"]` -/
+def parseEv (j : Json) : Option Ev := do
+  match ← jArr j with
+  | [k, a, b] =>
+    match ← jStr k with
+    | "b" => pure (.begin (← jBool a) (← jNat b))
+    | "a" => pure (.ack (← jNat a) ((jBool b).getD false))      -- "c": cancelled while waiting = the await raised
+    | "x" => pure (.leave (← jNat a) ((← jStr b) == "e"))
+    | _ => none
+  | _ => none
+
+def showCOut : COut → String
+  | .waiting => "wait"
+  | .done o => showOutcome o
+
 def step' (j : Json) : Option String := do
   match field j "bus" with
   | some b => if !b.isNull then return ← busCase j (← jArr b)
   | none => pure ()
+  if (fBool j "conc").getD false then
+    let evs ← (← fArr j "evs").mapM parseEv
+    let tr := ctrace (← cfgOf (← field j "cfg")) (cinit (← fNat j "n")) evs
+    return " | ".intercalate (tr.map fun (o, ws, t) => showLine (showCOut o) ws t)
   let n ← fNat j "n"
   let cfg ← match ← (← fArr j "cfg").mapM jNat with
     | [a, b, c, d] => some ({ outOff := a, outSz := b, inOff := c, inSz := d } : Cfg)
